@@ -52,10 +52,16 @@ def run(ck):
             g = dict(g); g["calls"] = calls_for(g, ("dict", "list"), ilp=False, all_switches=False); g["watchdog"] = 20; groups.append(g)
     for g in gen.pigeonhole_family():                       # k+1 / k+2 nearly equal items into k = 2..8 bins
         g["calls"] = calls_for(g, ("dict", "list"), ilp=False, all_switches=False); g["watchdog"] = 20; groups.append(g)
+    # multifit only: first-fit-decreasing is not monotone in the capacity, so whatever capacity the final packing uses must be one the search has verified;
+    # a slip there shows on about 1 in 3000 lists of 8-20 values - cheap to run (no oracle needed for "at most numbins bins, every item once")
+    rng = ck.rng
+    for i in range(20000 if q else 150000):
+        n = rng.randint(8, 20)
+        groups.append({"vals": [rng.randint(5, 100) for _ in range(n)], "k": rng.randint(2, 6), "calls": [call("multifit", "list", it=10)], "watchdog": 20})
     groups += witness_groups(ck)
     ck.rule = ("TLC enumerates every bag of <=%d values in 0..%d x k<=%d (P-scope); every partitioner (complete greedy under all "
                "16 switch combinations x 3 objectives) is executed on each in dict / list / names+valueof presentation (distinct names, and names repeated for equal items); plus seeded random, "
-               "all-equal, all-zero, k>n and pigeonhole (k+1, k+2 nearly equal items into k<=8 bins) families. non-trivial = distinct (bag,k) with >=2 items and >=2 bins") % ((5, 5, 4) if q else (6, 6, 6))
+               "all-equal, all-zero, k>n and pigeonhole (k+1, k+2 nearly equal items into k<=8 bins) families, and 20 000 random lists of 8-20 values for multifit alone. non-trivial = distinct (bag,k) with >=2 items and >=2 bins") % ((5, 5, 4) if q else (6, 6, 6))
     traces = core.pmap(drive.run_part_group, groups)
     for t in traces:
         ck.evaluations += len(t["res"])
